@@ -32,7 +32,24 @@ mod c20;
 
 use common::Ctx;
 
+struct StderrLog;
+impl log::Log for StderrLog {
+    fn enabled(&self, m: &log::Metadata) -> bool {
+        m.target().starts_with("trusttunnel")
+    }
+    fn log(&self, r: &log::Record) {
+        if self.enabled(r.metadata()) {
+            eprintln!("[{}] {}", r.level(), r.args());
+        }
+    }
+    fn flush(&self) {}
+}
+
 fn main() {
+    if std::env::var("TT_LOG").is_ok() {
+        let _ = log::set_boxed_logger(Box::new(StderrLog));
+        log::set_max_level(log::LevelFilter::Trace);
+    }
     let args: Vec<String> = std::env::args().collect();
     if args.len() < 2 {
         eprintln!("usage: tt_harness <suite> --out <dir> [--tier quick|thorough] [--seed N]");
